@@ -297,7 +297,7 @@ fn lines_chunks(pieces: &[Vec<u8>], direct: bool, rep: &mut Report) -> String {
 fn lines_framed(tokens: &[Option<Vec<u8>>], style: u8, rep: &mut Report) -> String {
     let pieces: Vec<Vec<u8>> = tokens.iter().flatten().cloned().collect();
     let whole: Vec<u8> = pieces.concat();
-    let shown = tokens.iter().map(|t| t.as_ref().map_or("p".to_string(), |p| hex(p))).collect::<Vec<_>>().join(" ");
+    let shown = tokens.iter().map(|t| t.as_ref().map_or("p".to_string(), |p| show_bytes(p))).collect::<Vec<_>>().join(" ");
     let mut s = Session::new(Sel::Lines, Init::New, style);
     s.io.0.borrow_mut().rscript.extend(tokens.iter().filter(|t| t.as_ref().map_or(true, |p| !p.is_empty())).map(|t| match t {
         Some(p) => Rd::Data(p.clone()),
@@ -342,6 +342,28 @@ fn lines_framed(tokens: &[Option<Vec<u8>>], style: u8, rep: &mut Report) -> Stri
         t3x(rep, "C15", &format!("LinesCodec under Framed, transport script {shown} then end of file: the stream yields [{}] but the reference splitter says [{}] (and {n_pending} Pending)", show_outs(&outs), show_outs(&want)));
     }
     format!("[{}]", outs.iter().map(|o| o.show()).collect::<Vec<_>>().join(","))
+}
+
+/// a token of the `framed` op: `p` (the transport answers Pending), hex (one read), or
+/// `x<len>/<chunk>`: `len` letters (`a` + i mod 26, no line end) offered in reads of `chunk` bytes
+fn framed_token(h: &str) -> Option<Vec<Option<Vec<u8>>>> {
+    if h == "p" {
+        return Some(vec![None]);
+    }
+    if let Some(spec) = h.strip_prefix('x') {
+        let (n, c) = spec.split_once('/')?;
+        let digits = |t: &str| !t.is_empty() && t.bytes().all(|b| b.is_ascii_digit());
+        if !digits(n) || !digits(c) {
+            return None;
+        }
+        let (n, c) = (n.parse::<usize>().ok()?, c.parse::<usize>().ok()?);
+        if n > 100000 || c == 0 || c > 100000 {
+            return None;
+        }
+        let body: Vec<u8> = (0..n).map(|i| b'a' + (i % 26) as u8).collect();
+        return Some(body.chunks(c).map(|ch| Some(ch.to_vec())).collect());
+    }
+    unhex(h).filter(|p| p.len() <= MAX_CHUNK).map(|p| vec![Some(p)])
 }
 
 /// all ways of cutting `s` into `k` consecutive (possibly empty) pieces
@@ -611,6 +633,16 @@ fn gen_c15(a: &Args, w: &mut dyn Write) {
                 pline(w, &["p".into(), hex(&ps[0]), hex(&ps[1]), "p".into(), "p".into()]);
             }
         });
+        // one very long line through the real `Framed` (the read buffer has to grow once, twice, …):
+        // offered in reads of 1 KiB / 8 KiB / in one go, terminated by LF / CR LF / end of file, a
+        // second line behind it; the line comes out intact
+        for len in [8191usize, 8192, 8193, 16000, 16383, 16384, 16385, 20000, 32768, 70000] {
+            for chunk in [1024usize, 8192, 100000] {
+                pline(w, &[format!("x{len}/{chunk}"), "0a".into(), "620a".into()]);
+                pline(w, &[format!("x{len}/{chunk}"), "p".into(), "0d0a".into(), "p".into()]);
+                pline(w, &[format!("x{len}/{chunk}")]);
+            }
+        }
         for st in [&b"a\nb\n"[..], b"a\nb\nc\n", b"a\r\nb\r\nc", b"\n\n\n", b"a\n\xff\nb\n", "é\nü\n".as_bytes()] {
             pline(w, &[hex(st), "p".into(), "p".into(), "p".into(), hex(b"z\n"), "p".into()]);
         }
@@ -736,8 +768,12 @@ fn step_c15(ws: &[&str], rep: &mut Report) -> Option<String> {
             Some(ps) => lines_chunks(&ps, *op == "chunkse", rep),
             None => "bad-op".into(),
         },
-        ["framed", hs @ ..] if !hs.is_empty() => match hs.iter().map(|h| if *h == "p" { Some(None) } else { unhex(h).filter(|p| p.len() <= MAX_CHUNK).map(Some) }).collect::<Option<Vec<Option<Vec<u8>>>>>() {
-            Some(ps) => lines_framed(&ps, (ps.len() % 4) as u8, rep),
+        ["framed", hs @ ..] if !hs.is_empty() => match hs.iter().map(|h| framed_token(h)).collect::<Option<Vec<Vec<Option<Vec<u8>>>>>>() {
+            Some(ps) => {
+                let n_tok = ps.len();
+                let ps: Vec<Option<Vec<u8>>> = ps.into_iter().flatten().collect();
+                lines_framed(&ps, (n_tok % 4) as u8, rep)
+            }
             None => "bad-op".into(),
         },
         ["enc", hs @ ..] => match parse_strs(hs) {
